@@ -11,6 +11,7 @@ structure St where
   n : Nat := 0
   lc : LC := { chain := [], stored := [] }
   metas : List (Option BlockMeta) := []
+  txsAt : List (Int × List Bytes) := []
 
 def hexList (s : String) : Option (List Bytes) := (splitComma s).mapM ofHex
 
@@ -123,6 +124,20 @@ def parseBlockRes (t : List String) : Option ResultBlock := do
     header := hdr, txs := txs, evidence := evs, evidenceOK := (← kv t "evok") = "1",
     lastCommitNil := (← kv t "lcnil") = "1", lastCommitSigs := sigs, lastCommitOK := (← kv t "lcok") = "1" } }
 
+def parseHits (s : String) : Option (List Hit) :=
+  (splitComma s).mapM fun e =>
+    match e.splitOn "/" with
+    | [h, i] => do
+      let h ← h.toInt?
+      let i ← i.toNat?
+      pure { height := h, index := i }
+    | _ => none
+
+def showServed (r : Hit × Option TxProof.TxProof) : String :=
+  match r.2 with
+  | some p => s!"{r.1.height}/{r.1.index}/{hexOrDash p.rootHash}/{hexOrDash p.data}/{p.proof.total}/{p.proof.index}/{hexOrDash p.proof.leafHash}/{hexListStr p.proof.aunts}"
+  | none => s!"{r.1.height}/{r.1.index}/-/-/0/0/-/-"
+
 def ready (s : St) : Bool := s.inited && s.lc.chain.length = s.n
 
 def step (s : St) (toks : List String) : St × String :=
@@ -131,7 +146,7 @@ def step (s : St) (toks : List String) : St × String :=
     match (kv t "n").bind String.toNat?, (kv t "nv").bind String.toNat?, (kv t "root").bind String.toNat? with
     | some n, some nv, some root =>
       if n < 1 ∨ n > 40 ∨ nv < 1 ∨ nv > 8 ∨ root < 1 ∨ root > n then (s, "bad-op")
-      else ({ inited := true, n := n, lc := { chain := [], stored := [(root : Int)] }, metas := [] }, "ok")
+      else ({ inited := true, n := n, lc := { chain := [], stored := [(root : Int)] }, metas := [], txsAt := [] }, "ok")
     | _, _, _ => (s, "bad-op")
   | "committed" :: t =>
     match kv t "kind", kv t "field" with
@@ -147,6 +162,23 @@ def step (s : St) (toks : List String) : St × String :=
         ({ s with lc := { s.lc with chain := s.lc.chain ++ [{ header := hdr, commitBlockID := cb, vals := vals }] } },
           hexOrDash (hdr.hash Hs))
     | _, _, _, _ => (s, "bad-op")
+  | "blocktxs" :: t =>
+    if !ready s then (s, "bad-op") else
+    match (kv t "h").bind String.toInt?, (kv t "txs").bind hexList with
+    | some h, some txs => ({ s with txsAt := (h, txs) :: s.txsAt.filter (fun e => e.1 ≠ h) }, "ok")
+    | _, _ => (s, "bad-op")
+  | "txsearch" :: t =>
+    if !ready s then (s, "bad-op") else
+    match kv t "prove", (kv t "page").bind optInt, (kv t "per").bind optInt, kv t "order", (kv t "hits").bind parseHits with
+    | some prove, some page, some per, some order, some hits =>
+      if hits.any (fun h => (s.txsAt.lookup h.height).isNone) then (s, "bad-op") else
+      let txsAt : Int → List Bytes := fun h => (s.txsAt.lookup h).getD []
+      match txSearch Hs txsAt hits (if order = "-" then "" else order) (prove = "1") page per with
+      | .error .order => (s, "err:order")
+      | .error .page => (s, "err:page")
+      | .ok (total, res) =>
+        (s, s!"ok total={total} res=" ++ (if res.isEmpty then "-" else ";".intercalate (res.map showServed)))
+    | _, _, _, _, _ => (s, "bad-op")
   | "meta" :: t =>
     if !ready s then (s, "bad-op") else
     if kv t "nil" = some "1" then ({ s with metas := s.metas ++ [none] }, "ok") else
